@@ -68,18 +68,18 @@ func genC05(t *simrt.Tape, tier string) interface{} {
 }
 
 type callRec struct {
-	tag          string
-	id           string
-	invokeStep   int
-	invokeAt     time.Duration
-	retStep      int
-	retAt        time.Duration
-	deadlineAt   time.Duration
-	respTag      string
-	respID       string
-	errClass     string // "", ctx, in-use, other
-	errText      string
-	done         bool
+	tag        string
+	id         string
+	invokeStep int
+	invokeAt   time.Duration
+	retStep    int
+	retAt      time.Duration
+	deadlineAt time.Duration
+	respTag    string
+	respID     string
+	errClass   string // "", ctx, in-use, other
+	errText    string
+	done       bool
 }
 
 type respRec struct {
@@ -335,6 +335,49 @@ func runC05(w *World, pi interface{}) {
 			}
 		}
 	}
+	// A request that reuses an identifier still pending is rejected: two accepted calls with one
+	// id are never pending at the same moment. A call is pending at least from the moment its
+	// request is seen on the wire (it registers before it writes) until the response it returned
+	// was sent, or until its context ended when it returned the context's error.
+	type span struct {
+		c        *callRec
+		fromStep int
+		fromAt   time.Duration
+	}
+	var spans []span
+	for _, e := range h.Of(0, "s-frame") {
+		if e.Frame["uri"] == nil {
+			continue
+		}
+		md, _ := e.Frame["metadata"].(map[string]interface{})
+		tag, _ := md["call"].(string)
+		for _, c := range calls {
+			if c.tag == tag && c.done && (c.respTag != "" || c.errClass == "ctx") {
+				spans = append(spans, span{c, e.Step, time.Duration(e.AtMs) * time.Millisecond})
+			}
+		}
+	}
+	pendingAt := func(sp span, step int, at time.Duration) bool {
+		if sp.c.respTag != "" {
+			r, ok := respByTag[sp.c.respTag]
+			return ok && r.sentStep > step
+		}
+		return at+time.Millisecond < sp.c.deadlineAt // AtMs is truncated to the millisecond
+	}
+	for i, a := range spans {
+		for _, b := range spans[i+1:] {
+			if a.c == b.c || a.c.id != b.c.id {
+				continue
+			}
+			step, at := a.fromStep, a.fromAt
+			if b.fromStep > step {
+				step, at = b.fromStep, b.fromAt
+			}
+			if pendingAt(a, step, at) && pendingAt(b, step, at) {
+				w.Violate("C05.reused-pending-id-accepted", sig("both-pending"), "calls %s and %s use id %s and were both accepted and pending at step %d: the one that registered second reused an identifier still pending\n%s", a.c.tag, b.c.tag, a.c.id, step, dump())
+			}
+		}
+	}
 	for _, tg := range stream {
 		consumed[tg]++
 	}
@@ -420,7 +463,7 @@ func init() {
 		MaxSim: 3 * time.Hour,
 		Rule: "plans = (1-6 concurrent caller tasks x 1-6 ProcessCommand calls with ids from a pool of 3 and context deadlines 5 ms..30 s; a scripted responder that per request answers now / late / never / twice / after the next request / with another id; unsolicited responses incl. unknown ids; " +
 			"channel buffer sizes incl. 0; response stream drained or not; benign link faults); every request carries its call tag and every response a unique tag, invocations and returns are stamped with the scheduler's step number; " +
-			"oracle: interval reasoning over the history (own id only, context error only after the context ended, in-use only with an overlapping same-id call, each response consumed at most once, unmatched responses on the stream, timely answers returned); " +
+			"oracle: interval reasoning over the history (own id only, context error only after the context ended, in-use only with an overlapping same-id call, no two accepted same-id calls pending at one moment (wire sight .. own response sent / context end), each response consumed at most once, unmatched responses on the stream, timely answers returned); " +
 			"non-trivial = session established; distinct = distinct (plan JSON, event-log hash)",
 	})
 }
